@@ -2,3 +2,4 @@ import Rp2.Props.C10
 #print axioms Rp2.C10.view_is_filter
 #print axioms Rp2.C10.model_window_only_hides
 #print axioms Rp2.C10.model_window_is_filter
+#print axioms Rp2.C10.model_from_date_only_hides
